@@ -560,6 +560,47 @@ def _mutated_anywhere(repo, name: str) -> bool:
     return False
 
 
+def _mutable_value(e: ast.expr) -> bool:
+    return isinstance(e, (ast.Dict, ast.List, ast.Set, ast.ListComp, ast.DictComp, ast.SetComp)) or \
+        (isinstance(e, ast.Call) and isinstance(e.func, ast.Name) and e.func.id in ("dict", "list", "set"))
+
+
+_COPYING = {"dict", "list", "set", "tuple", "frozenset", "sorted", "len", "any", "all", "sum", "min", "max", "enumerate", "iter"}
+_READ_METHODS = {"copy", "get", "items", "keys", "values", "index", "count", "isdisjoint", "issubset", "issuperset", "union", "difference", "intersection"}
+
+
+def _only_readonly_uses(repo, name: str) -> bool:
+    """a module-level mutable object may be read as its defining display only if no use can let it escape: every load is
+    copied (`dict(X)`, `X.copy()`, `{**X}`), iterated, subscripted or membership-tested - never bound, passed on or returned"""
+    for m in repo.modules.values():
+        parents = {}
+        for n in ast.walk(m.tree):
+            for c in ast.iter_child_nodes(n):
+                parents[id(c)] = n
+        for n in ast.walk(m.tree):
+            if not (isinstance(n, ast.Name) and n.id == name and isinstance(n.ctx, ast.Load)):
+                continue
+            p = parents.get(id(n))
+            ok = False
+            if isinstance(p, ast.Call) and isinstance(p.func, ast.Name) and p.func.id in _COPYING and len(p.args) == 1 and p.args[0] is n and not p.keywords:
+                ok = True
+            elif isinstance(p, ast.Attribute) and p.value is n and p.attr in _READ_METHODS and isinstance(parents.get(id(p)), ast.Call) and parents[id(p)].func is p:
+                ok = True
+            elif isinstance(p, ast.Compare) and n in p.comparators and all(isinstance(o, (ast.In, ast.NotIn)) for o in p.ops):
+                ok = True
+            elif isinstance(p, (ast.For, ast.AsyncFor, ast.comprehension)) and p.iter is n:
+                ok = True
+            elif isinstance(p, ast.Subscript) and p.value is n and isinstance(p.ctx, ast.Load):
+                ok = True
+            elif isinstance(p, ast.Dict) and any(k is None and v is n for k, v in zip(p.keys, p.values)):
+                ok = True
+            elif isinstance(p, ast.Starred):
+                ok = True
+            if not ok:
+                return False
+    return True
+
+
 def fold_constants(repo) -> int:
     """replace every Name that resolves (through the imports of the analysed tree) to a module-level scalar / tuple
     constant by its value.  Returns the number of names folded."""
@@ -576,6 +617,7 @@ def fold_constants(repo) -> int:
     sigs = sig_from_table(table)
     from .canon import pinned as _pinned
     pinned_assigns = _pinned().get("assigns", {})
+    pinned_functions = _pinned().get("functions", {})
     for m in repo.modules.values():
         cache = {}
         count = [0]
@@ -589,14 +631,24 @@ def fold_constants(repo) -> int:
                     k, v = repo.resolve(m, name)
                     if k == "const" and is_foldable(v) and not isinstance(v, bool) or (k == "const" and isinstance(v, bool)):
                         r = (True, v)
-                    elif k == "var":
+                    elif k in ("var", "const"):
                         # a module-level name that does not exist on the pinned tree, assigned once to a pure expression
                         # (comprehension / literal / constructor over names): read like the expression itself
-                        dm, dn = v
+                        if k == "var":
+                            dm, dn = v
+                        else:
+                            dm, dn = m, name
+                            hops = 0
+                            while dn not in dm.assigns and dn in dm.imports and hops < 5:
+                                mod_, attr_ = dm.imports[dn]
+                                if attr_ is None or mod_ not in repo.modules:
+                                    break
+                                dm, dn = repo.modules[mod_], attr_
+                                hops += 1
                         known = set(pinned_assigns.get(dm.relpath, []))
                         vals = dm.assigns.get(dn, [])
-                        if pinned_assigns.get(dm.relpath) is not None and dn not in known and len(vals) == 1 and isinstance(vals[0], ast.expr) and _pure_definition(vals[0]) \
-                                and not _mutated_anywhere(repo, dn):
+                        if (dm.relpath in pinned_assigns or dm.relpath in pinned_functions) and dn not in known and len(vals) == 1 and isinstance(vals[0], ast.expr) and _pure_definition(vals[0]) \
+                                and not _mutated_anywhere(repo, dn) and (not _mutable_value(vals[0]) or _only_readonly_uses(repo, dn)):
                             r = (False, vals[0])
                 except Exception:
                     r = None
